@@ -494,6 +494,19 @@ impl<T: FnOnce()> AssertSend<T> {
 }
 
 /// `v` is owned by a frame that unwinds because of a panic which is caught inside the model.
+/// uses about `kib` KiB of the calling thread's stack
+#[inline(never)]
+fn burn_stack(kib: usize) -> usize {
+    let mut a = [0u8; 1024];
+    a[kib % 1024] = 1;
+    let a = std::hint::black_box(a);
+    if kib == 0 {
+        a[0] as usize
+    } else {
+        a[1] as usize + burn_stack(kib - 1)
+    }
+}
+
 fn drop_by_caught_unwind<T>(v: T) {
     let r = std::panic::catch_unwind(std::panic::AssertUnwindSafe(move || {
         let _owned = v;
@@ -889,6 +902,10 @@ fn run_thread(sh: SArc<Sh>, t: usize) {
             "tlwith" => res = Some(tl_bump(&ins.o) as i64),
             // the place of the value's destructor in the program text (it runs when the thread ends, right after its last instruction)
             "tlexit" => {}
+            // the thread really uses ins.v KiB of its stack (threads created through thread::Builder ask for a large one)
+            "stack" => {
+                std::hint::black_box(burn_stack(ins.v as usize));
+            }
             "tlnest" => res = Some(tl_nest(&ins.o, &ins.o2) as i64),
             "lzget" => {
                 LZ_MODE.with(|m| *m.borrow_mut() = if ins.k == "rmw" { "rmw".into() } else { "yield".into() });
